@@ -401,14 +401,15 @@ def import_primitive_params(
     Returns the result as a dictionary of {name: value}s."""
 
     if target is Vpulse:
+        # Note each is optional: `None`-valued parameters are not exported.
         return dict(
-            v1=params["v1"],
-            v2=params["v2"],
-            delay=params["td"],
-            rise=params["tr"],
-            fall=params["tf"],
-            width=params["tpw"],
-            period=params["tper"],
+            v1=params.get("v1", None),
+            v2=params.get("v2", None),
+            delay=params.get("td", None),
+            rise=params.get("tr", None),
+            fall=params.get("tf", None),
+            width=params.get("tpw", None),
+            period=params.get("tper", None),
         )
 
     return params
